@@ -68,13 +68,20 @@ func WriteHeader(h *protocol.RequestHeader, w network.Writer) error {
 
 func ReadHeader(h *protocol.RequestHeader, r network.Reader) error {
 	n := 1
+	isHead := false
 	for {
 		err := tryRead(h, r, n)
 		if err == nil {
 			return nil
 		}
+		// The method of a request line that was read fine outlives the reset below: the server needs it
+		// to answer a rejected HEAD request without content (RFC 9110 section 9.3.2).
+		isHead = isHead || h.IsHead()
 		if !errors.Is(err, errs.ErrNeedMore) {
 			h.ResetSkipNormalize()
+			if isHead {
+				h.SetMethod(consts.MethodHead)
+			}
 			return err
 		}
 
